@@ -74,10 +74,10 @@ def doInit (i : Inp) (s : St) : String → St
   | "p := recover()" => { s with p := s.panicking && !s.nilp, panicking := false }
   | "e := tx.Rollback()" =>
     if i.f.rollbackPanics then
-      { s with log := s.log ++ [.rollback false], escaping := some .rollback, returned := true }
+      { s with log := s.log ++ [.rollback false], escaping := some (.rollback .plain), returned := true }
     else
     { s with log := s.log ++ [.rollback i.f.rollback],
-             e := if i.f.rollback then none else some (Err.of .rollback) }
+             e := if i.f.rollback then none else some (Err.of (.rollback i.f.rollbackCls)) }
   | _ => { s with stuck := true }
 
 /-- calling the body: its driver calls, then the way it ends; an abnormal exit skips the rest of the function -/
@@ -98,9 +98,10 @@ def assign (i : Inp) (s : St) : Rhs → St
                   err := if i.f.begin then none else some (Err.of .begin) }
   | .call "tx.Commit()" =>
     if i.f.commitPanics then
-      { s with log := s.log ++ [.commit false], escaping := some .commit, returned := true }
+      { s with log := s.log ++ [.commit false], escaping := some (.commit .plain), returned := true }
     else
-    { s with log := s.log ++ [.commit i.f.commit], err := if i.f.commit then none else some (Err.of .commit) }
+    { s with log := s.log ++ [.commit i.f.commit],
+             err := if i.f.commit then none else some (Err.of (.commit i.f.commitCls)) }
   | .errorf verbs =>
     match fmtErr s verbs with
     | some e => { s with err := some e }
@@ -141,6 +142,74 @@ def outcome (s : St) : Option (List Ev × Nat × Option Err × Bool) :=
   match s.escaping with
   | some src => some (s.log, s.runs, some (Err.of src), true)
   | none => some (s.log, s.runs, s.err, false)
+
+/-! ### `transact`: the connection provider in front of `transactOnConn` -/
+
+/-- meaning of the control-flow term of `transact` (`connOk`: `db.connProv()` yields a *sql.DB): `db.onError` has
+no effect on the outcome, `return transactOnConn(ctx, conn, b, fn)` is the run of `inner` (the term extracted
+from `transactOnConn`); anything else is `stuck`. -/
+def runOuter (i : Inp) (connOk : Bool) (inner : Blk) : Blk → St → St
+  | .assignErr (.call "db.connProv()") k, s =>
+    if s.returned || s.stuck then s
+    else runOuter i connOk inner k { s with err := if connOk then none else some (Err.of .conn) }
+  | .ifc "" cond thn els k, s =>
+    if s.returned || s.stuck then s else
+    match evalCond s cond with
+    | none => { s with stuck := true }
+    | some true => runOuter i connOk inner k (runOuter i connOk inner thn s)
+    | some false => runOuter i connOk inner k (runOuter i connOk inner els s)
+  | .other "db.onError(ctx, err)" k, s => if s.returned || s.stuck then s else runOuter i connOk inner k s
+  | .ret (.other "err"), s => if s.returned || s.stuck then s else { s with returned := true }
+  | .ret (.call "transactOnConn(ctx, conn, b, fn)"), s =>
+    if s.returned || s.stuck then s else { run i inner s with returned := true }
+  | .done, s => s
+  | _, s => { s with stuck := true }
+
+/-! ### the decision chains of `acceptable` and `WithAcceptable` (terms BX / RC / FX) -/
+
+/-- the class a sentinel named in the source stands for -/
+def sentinelCls : String → Option Cls
+  | "sql.ErrNoRows" => some .noRows
+  | "sql.ErrTxDone" => some .txDone
+  | "context.Canceled" => some .canceled
+  | _ => none
+
+structure AEnv where
+  err  : Option Err
+  vars : List (String × String) := []      -- declared variables and their types
+  fns  : List (String × AccFn) := []       -- function-valued names in scope
+
+def evalBX (a : AEnv) : BX → Option Bool
+  | .lit b => some b
+  | .isNil v => if v = "err" then some a.err.isNone else (a.fns.lookup v).map Option.isNone
+  | .errIn ss => (ss.mapM sentinelCls).map fun cs => cs.any (hasCls a.err)
+  | .errAs v => if a.vars.lookup v = some "acceptableError" then some (hasCls a.err .accType) else none
+  | .call f =>
+    match a.fns.lookup f with
+    | some (some g) => some (g a.err)
+    | _ => none                               -- unknown name, or a call of a nil function
+  | .not x => (evalBX a x).map (!·)
+  | .or x y =>
+    match evalBX a x with
+    | some true => some true                  -- short-circuit: the right operand is not evaluated
+    | some false => evalBX a y
+    | none => none
+  | .and x y =>
+    match evalBX a x with
+    | some false => some false
+    | some true => evalBX a y
+    | none => none
+  | .other _ => none
+
+def evalRC (a : AEnv) : RC → Option Bool
+  | .ifRet c v k =>
+    match evalBX a c with
+    | some true => evalBX a v
+    | some false => evalRC a k
+    | none => none
+  | .ret v => evalBX a v
+  | .decl v ty k => evalRC { a with vars := (v, ty) :: a.vars } k
+  | _ => none
 
 /-- `transactOnConn` as pinned when this check was built (completion of the body is inferred from
 `recover() != nil` alone) -/
